@@ -1,8 +1,8 @@
-\* (R) generator + predictor: every history of exactly 3 steps (last one a query) under the AS-BUILT keys
+\* (R) generator + predictor: every history of exactly 4 steps (quick tier replays a seeded sample of them, thorough all) (last one a query) under the AS-BUILT keys
 CONSTANTS Paths = {1}
           NVersions = 3
           Modes = {0, 1, 2}
-          MaxActions = 3
+          MaxActions = 4
           KeyModel = 1
           VStep = {1}
           WithX = TRUE
